@@ -54,8 +54,8 @@ type FnCtx struct {
 	globalWrites []*types.Var
 	nameSeen     map[string]int
 	firedWhere   map[string]bool // program points of assert clauses that were reached
-	gen          *genInfo // non-nil: a closure of generated code (call-site hooks active)
-	nameSuffix   string   // appended to obligation names while deferred calls run at an exit
+	gen          *genInfo        // non-nil: a closure of generated code (call-site hooks active)
+	nameSuffix   string          // appended to obligation names while deferred calls run at an exit
 }
 
 func (fc *FnCtx) counter(kind string) int {
